@@ -261,7 +261,7 @@ class MibCompiler(object):
                             '%s has been read before' % fileInfo.path)
 
                         if requested:
-                            if sourceFailed:
+                            if sourceFailed and mibname in failedMibs:
                                 # an earlier source failed on this name
                                 del failedMibs[mibname]
 
@@ -368,7 +368,7 @@ class MibCompiler(object):
                             'no module %s in the file found at %s' % (mibname, source))
                         continue
 
-                    if sourceFailed:
+                    if sourceFailed and mibname in failedMibs:
                         # an earlier source failed on this name, this one
                         # did not: forget the failure report
                         del failedMibs[mibname]
